@@ -199,28 +199,34 @@ ForcePayload(o, m) ==
     [] o.op \in {"stop", "halt", "try_stop", "try_halt", "consume", "consume_sync"}
                         -> [k |-> "stop", m |-> m, rs |-> "none", scr |-> <<>>, src |-> "mailbox"]
     [] o.op = "restart" -> [k |-> "restart", m |-> m, rs |-> "none", scr |-> <<>>, src |-> "mailbox"]
+    [] o.op = "force_send" -> [k |-> "task", m |-> m, rs |-> "none", scr |-> o.scr, src |-> "mailbox"]   \* WeakSender::try_force_send
 
 IsStopOp(op) == op \in {"stop", "halt", "try_stop", "try_halt", "consume", "consume_sync"}
 
 SubmitForce(c, o) ==
   LET x == o.h  a == hnd[x].a  m == Mid(c)  p == ForcePayload(o, m)
-      weak == hnd[x].kind = "waddr"
-      up   == ~weak \/ CanUpgrade(a, "waddr")
+      weak == hnd[x].kind \in {"waddr", "wsender"}
+      up   == ~weak \/ CanUpgrade(a, hnd[x].kind)
       open == act[a].rx = "open"
       H0 == IF IsStopOp(o.op) THEN HStopBegin(hst, a)
-            ELSE IF p.k = "task" /\ p.rs = "call" THEN HSubmitBegin(hst, a, m) ELSE hst
+            ELSE IF p.k = "task" /\ (p.rs = "call" \/ o.op = "force_send") THEN HSubmitBegin(hst, a, m) ELSE hst
   IN
   /\ CanIssue(c) /\ Owns(c, x)
   /\ \/ o.op \in {"call", "ping"} /\ hnd[x].kind \in {"addr", "owning"}
      \/ o.op \in {"stop", "halt", "restart"} /\ hnd[x].kind = "addr"
      \/ o.op \in {"try_stop", "try_halt"} /\ hnd[x].kind = "waddr"
      \/ o.op \in {"consume", "consume_sync"} /\ hnd[x].kind = "owning"
+     \/ o.op = "force_send" /\ hnd[x].kind = "wsender"
   /\ IF up /\ open
      THEN /\ act' = [act EXCEPT ![a] = [Enq(@, p, DEAD) EXCEPT !.jh = IF o.op \in {"consume", "consume_sync"} /\ @ = "held" THEN "taken" ELSE @]]
           /\ rsp' = IF p.rs # "none" THEN (m :> [st |-> "pending", pos |-> 0, inst |-> 0, a |-> a]) @@ rsp ELSE rsp
           /\ CASE o.op \in {"call", "ping"} ->
                     /\ cli' = Began(c, o, m, a, "resp", NoHold)
                     /\ hst' = IF p.rs = "call" THEN HAccepted(H0, a, m) ELSE H0
+                    /\ hnd' = hnd
+               [] o.op = "force_send" ->   \* the bound of the mailbox is ignored; accepted and complete at once
+                    /\ cli' = Instant(c, o, m, Last("ok", 0, 0, a))
+                    /\ hst' = HSubmitDone(HAccepted(H0, a, m), a, m)
                     /\ hnd' = hnd
                [] o.op \in {"stop", "try_stop", "restart"} ->
                     /\ cli' = Instant(c, o, m, Last("ok", 0, 0, a))
